@@ -283,6 +283,22 @@ func run(c TCase, check string, info *TInfo) *vstat.Violation {
 				cnt = 1
 			}
 			do(func() { r.cancel(target, cnt) })
+		case "neighbour":
+			// two futures with nearly equal deadlines (op.N microseconds apart) and a worker that becomes free exactly
+			// when the first one is due: a busy callback occupies it until then
+			var target atomic.Int64
+			busy := func() {
+				for target.Load() == 0 || time.Now().UnixNano() < target.Load() {
+				}
+			}
+			timeout.Call(busy, 0)
+			d := time.Duration(op.D) * time.Millisecond
+			a := r.call(d, 0, false)
+			target.Store(a.t1.Add(d).UnixNano())
+			for t := time.Now(); time.Since(t) < time.Duration(op.N)*time.Microsecond; {
+			}
+			r.call(d, 0, false)
+			info.class("neighbour_deadlines_with_a_worker_freed_at_the_first")
 		case "sleep":
 			time.Sleep(time.Duration(op.D) * time.Millisecond)
 		case "gap": // idle gap longer than two idle timeouts: every worker may leave
